@@ -4,7 +4,8 @@ import NetaddrVerif.Model.Nmap
 /-! Driver ops of property C17 (glob and nmap notations).
 
     valid_glob S                       → T/F
-    glob_conv S                        → `lo,hi lo,hi lo,hi,S [4:v/p,…]` (iptuple, iprange, IPGlob, glob_to_cidrs) or `!`
+    glob_conv S                        → `lo,hi lo,hi lo,hi,S [4:v/p,…] lo,hi,S` (iptuple, iprange, IPGlob, glob_to_cidrs,
+                                         `.glob = S` setter on an existing IPGlob), each or `!`
     range2globs A A                    → `[S,…]` or `!`
     cidr2glob N                        → `S` or `!`
     nmap fuel S netres addrres         → `valid iter`: T/F or `!` (an exception valid_nmap_range lets through),
@@ -60,7 +61,10 @@ def globConv (s : List Char) : String :=
   let c := match Glob.globToCidrs s with
     | .ok l => showList (l.map (fun b => s!"4:{b.val}/{b.plen}"))
     | .error _ => "!"
-  " ".intercalate [t, r, g, c]
+  let st := match Glob.setGlob s with
+    | .ok g => s!"{g.lo},{g.hi},{showStr g.glob}"
+    | .error _ => "!"
+  " ".intercalate [t, r, g, c, st]
 
 def handle (op : String) (args : List String) : Option String :=
   match op, args with
